@@ -253,6 +253,17 @@ def scenarios(tier: str) -> tuple[list[C02Scenario], list[C02Scenario], list[C02
                     dict(id='u1', on='update', script=['temp', 'ok'])]
         user = base_user + [(2.0, 'restart'), (20.0, 'spec', 'a', 2), (21.0, 'restart')]
         timing.append(C02Scenario(handlers=handlers, lifecycle=lc, user=user, settings=settings, horizon=50.0))
+    # 7. the same multi-step cycles on a ReplicaSet owned by a Deployment (kopf names its annotations differently there)
+    for s1, s2 in [(['temp', 'ok'], ['ok']), (['ok'], ['temp', 'temp', 'ok']), (['arb', 'ok'], ['perm'])]:
+        for lc in ('asap', 'all_at_once'):
+            handlers = [dict(id='c1', on='create', script=s1, backoff=3), dict(id='c2', on='create', script=s2, backoff=3),
+                        dict(id='u1', on='update', script=s2, backoff=3), dict(id='d1', on='delete', script=['temp', 'ok'], backoff=3)]
+            user = base_user + [(30.0, 'spec', 'a', 2), (60.0, 'delete', 'a')]
+            plain.append(C02Scenario(handlers=handlers, lifecycle=lc, user=user, settings=settings, horizon=90.0, rs=True,
+                                     delays=False, early_user=False, time_dev=False))
+    crash.append(C02Scenario(handlers=[dict(id='c1', on='create', script=['temp', 'ok'], backoff=3), dict(id='c2', on='create', script=['ok'], backoff=3)],
+                             lifecycle='asap', user=base_user, settings=settings, horizon=40.0, kills=True, rs=True,
+                             delays=False, early_user=False, time_dev=False))
     # 6. a resume cycle (one resume handler done, one waiting for its retry) superseded by an essential change
     for lc in ('asap', 'one_by_one'):
         handlers = [dict(id='c1', on='create', script=['ok']), dict(id='r1', on='resume', script=['ok']),
